@@ -17,6 +17,18 @@ header list the REAL application hands to start_response:
       latin-1 -> utf-8, are the accepted values' texts, once per value, in order
       (item assignment / attribute replace, append / constructor add, setdefault only when absent).
       Text of an int/float is str(v); bool/None (statement silent about their text) match anything.
+  U4  a str containing a lone surrogate (U+D800..U+DFFF; os.fsdecode() of a non-UTF-8 file name gives
+      U+DC80..U+DCFF) is not text UTF-8 can carry: NO Latin-1 string decodes back to it as UTF-8.  "Every emitted
+      value decodes back to the original text" therefore means such a value is never emitted, in whatever
+      transcoding (raw bytes 0x80-0xFF via 'surrogateescape', '?', dropped characters ...).  Decided from the
+      statement and the unchanged code: the setter may refuse it (no effect), or building the header list may
+      fail (the unchanged code: the setters store it and `headerlist` raises UnicodeEncodeError; inside an
+      application the server then gets the framework's fallback error response, whose list is held to U and U4
+      as well).  If a header list IS handed over, every value emitted under a name that was offered such a
+      str must be the text of a VALID value offered to that same name in the case (or, for Content-Type /
+      Content-Length, the framework's own default: digits / text/html...) - U4.unrepresentable_value_emitted.
+      Raw escaped bytes that do not form UTF-8 are caught by U3 before; U4 catches escapes that happen to form
+      UTF-8 ('caf\udcc3\udca9' going out as the bytes of 'cafe-acute') and every substitution.
   E0  emission does not blow up when every stored value is valid Unicode text.
   B1  status 204: no Content-Type; status 304: none of Allow, Content-Encoding, Content-Language,
       Content-Length, Content-Range, Content-Type, Content-MD5, Last-Modified - under ANY spelling of the
@@ -24,8 +36,8 @@ header list the REAL application hands to start_response:
 
 Accepted without judgement (statement silent): whether int/float/bool/None are accepted or refused;
 what happens to bytes, lists, tuples, arbitrary objects, str/int subclasses with a lying __str__ and
-text with lone surrogates (not UTF-8 encodable) - for them only the U/H1.ctl/B1 clauses apply to the
-header name concerned; header *names*; default Content-Type / Content-Length added by the framework;
+text with lone surrogates (not UTF-8 encodable) - for them only the U/U4/H1.ctl/B1 clauses apply to the
+header name concerned (for lone surrogates: refused or failing at emission, both fine, see U4); header *names*; default Content-Type / Content-Length added by the framework;
 order between different names; list values through setdefault/update (not single-value setters, not
 generated); copy() refusing multi-valued headers (only a successful copy is inspected).
 """
@@ -44,7 +56,11 @@ BOUND = ('values: 60 fixed (clean ASCII/Latin-1/BMP/astral text, CR|LF|NUL|CRLF 
          'returned, HTTPError raised -> start_response}; single operations swept exhaustively over '
          '(value x entry x mode) and (name x status x entry x mode); all sequences of 2 operations over entries^2 and of '
          '3 operations over {setitem, append, setdefault}^3 x {clean a, clean b, bad}^3 on one name; plus seeded '
-         'random operation sequences (length 1..6) with random Unicode text and control characters at random positions')
+         'random operation sequences (length 1..6) with random Unicode text and control characters at random positions; '
+         'lone surrogates: 10 values (U+DC80, U+DCE9, U+DCFF, U+D800, U+DFFF alone and inside ASCII / non-ASCII text, '
+         'escape sequences that form valid UTF-8 such as U+DCC3 U+DCA9) x every entry point x every observation mode x '
+         '2 names, pairs (valid value, surrogate value) in both orders over {setitem, append, setdefault, ctor}^2 on one '
+         'name x every mode, through set_cookie, and 1500 (thorough 20000) seeded random sequences mixing them in')
 NONTRIVIAL_RULE = ('distinct (mode, status, ctor, ops); non-trivial = at least one operation offers a control-character '
                    'value, a non-ASCII value, a second value for a name, or the status has a header blacklist')
 
@@ -81,6 +97,9 @@ EXOTIC = [{'t': 'bytes', 'v': b'abc'}, {'t': 'bytes', 'v': b'a\r\nb'}, {'t': 'li
           {'t': 'strsub', 'v': 'ok', 's': 'x\r\ny'}, {'t': 'strsub', 'v': 'a\nb', 's': 'ok'},
           {'t': 'intsub', 'v': 5, 's': '5\r\nX: y'}, S('a\ud800'), S('\udc0a\n')]
 VALUES = CLEAN + BAD + NUMS + EXOTIC
+# lone surrogates (U4): what os.fsdecode gives for undecodable bytes (U+DC80..U+DCFF) and others
+SURROGATES = [S('\udc80'), S('\udce9'), S('caf\udce9.txt'), S('a\udcffb'), S('\ud800'), S('x\udfffy'),
+              S('r\udce9sum\udce9.pdf'), S('caf\udcc3\udca9'), S('\udce2\udc82\udcac 5'), S('\u00e9\udc80\u20ac')]
 SMALL = [S('v1'), S('vé2'), S('v\r\n3'), {'t': 'int', 'v': 7}]
 
 
@@ -197,6 +216,53 @@ def gen_cases(tier, seed):
         for v in (S('plain'), S('a\r\nSet-Cookie: x=y'), S('é€;,"\\'), S('a\0b')):
             for st in (200, 304):
                 yield _case(mode, st, [('cookie', 'ck', v), ('append', 'Vary', S('z'))])
+    # S1: every lone-surrogate value x every entry x every mode (two names, statuses rotating)
+    i = 0
+    for mode in MODES:
+        for entry in _entries(mode):
+            for v in SURROGATES:
+                for name in ('X-Test', 'Content-Type'):
+                    st = STATUSES[i % 3] if mode != 'error' else (404, 500, 304)[i % 3]
+                    i += 1
+                    yield _case(mode, st, [(entry, name, v)])
+    # S2: a valid value and a surrogate value on one name, both orders
+    for mode in MODES:
+        ents = ['setitem', 'append', 'setdefault', 'ctor:errkw' if mode == 'error' else 'ctor:pairs']
+        if mode == 'resp':
+            ents = ents[:3]
+        for e1, e2 in itertools.product(ents, repeat=2):
+            for sv in (SURROGATES[2], SURROGATES[7], SURROGATES[4]):
+                for name in ('X-Test', 'Vary'):
+                    st = 200 if mode != 'error' else 404
+                    yield _case(mode, st, [(e1, name, S('ok\u00e9')), (e2, name, sv)])
+                    yield _case(mode, st, [(e1, name, sv), (e2, name, S('ok\u00e9'))])
+                    yield _case(mode, st, [(e1, name, sv), (e2, name, SURROGATES[3])])
+    # S3: through set_cookie
+    for mode in ('direct', 'resp', 'raise'):
+        for v in SURROGATES:
+            yield _case(mode, 200, [('cookie', 'ck', v), ('append', 'Vary', S('z'))])
+    # S4: seeded random sequences with surrogate values mixed in
+    rnd = random.Random(seed * 7919 + 1414)
+    for _ in range(1500 if not thorough else 20000):
+        mode = rnd.choice(MODES)
+        ents = _entries(mode)
+        steps = []
+        for _k in range(rnd.randrange(1, 5)):
+            r = rnd.random()
+            if r < 0.5:
+                t = list(_rand_text(rnd))
+                for _j in range(rnd.choice([1, 1, 2, 3])):
+                    t.insert(rnd.randrange(0, len(t) + 1), chr(rnd.choice([0xdc80, 0xdcc3, 0xdca9, 0xdce9, 0xdcff, 0xd800,
+                                                                              0xdbff, 0xdc00, 0xdfff,
+                                                                              rnd.randrange(0xdc80, 0xdd00)])))
+                v = S(''.join(t))
+            elif r < 0.6:
+                v = rnd.choice(SURROGATES)
+            else:
+                v = S(_rand_text(rnd)) if r < 0.9 else rnd.choice(VALUES)
+            steps.append((rnd.choice(ents), rnd.choice(['Vary', 'X-Test', 'X-Test', 'Content-Type', 'content-length']), v))
+        st = rnd.choice(STATUSES) if mode != 'error' else rnd.choice([404, 500, 304, 204, 405])
+        yield _case(mode, st, steps)
     # D: seeded random sequences
     rnd = random.Random(seed * 7919 + 14)
     for _ in range(12000 if not thorough else 150000):
@@ -305,9 +371,22 @@ class Model:
         self.offered_bad = {}  # name -> set of rejected texts
         self.surrogates = False
         self.problem = None
+        self.unrepresentable = {}   # lower-cased name -> surrogate texts offered to it
+        self.valid_offered = {}     # lower-cased name -> texts of valid values offered to it (None: any text)
+
+    def note(self, name, spec):
+        """Bookkeeping for U4 (independent of what the operation did)."""
+        cls, text = classify(spec)
+        if spec['t'] == 'str' and not _valid_text(spec['v']):
+            self.unrepresentable.setdefault(name.lower(), []).append(spec['v'])
+        elif cls in ('accept', 'optional'):
+            self.valid_offered.setdefault(name.lower(), []).append(text)
+        elif cls == 'free':
+            self.valid_offered.setdefault(name.lower(), []).append(None)
 
     def apply(self, entry, name, spec, raised):
         cls, text = classify(spec)
+        self.note(name, spec)
         if spec['t'] == 'str' and not _valid_text(spec['v']):
             self.surrogates = True
         if cls == 'free':
@@ -358,6 +437,7 @@ def _build(ombott, case, model):
                                  exception=repr(e))
         for n, v in items:
             c, text = classify(v)
+            model.note(n, v)
             if c == 'reject':
                 model.offered_bad.setdefault(n, set()).add(text)
         return make()
@@ -369,6 +449,8 @@ def _build(ombott, case, model):
 def _do(resp, entry, name, value, spec, model):
     raised = None
     if entry == 'cookie':
+        if spec['t'] == 'str' and not _valid_text(spec['v']):
+            model.surrogates = True     # a cookie value that cannot be emitted: refusing / failing at emission is fine (U4)
         try:
             resp.set_cookie(name, value)
         except Exception:
@@ -391,6 +473,7 @@ def _do(resp, entry, name, value, spec, model):
         raised = e
     if entry == 'attr:expires' and spec['t'] != 'str':
         model.free.add(name)            # the writer formats non-text as a date: not this property's business
+        model.valid_offered.setdefault(name.lower(), []).append(None)
         return
     model.apply(entry, name, spec, raised)
 
@@ -426,6 +509,19 @@ def check_emitted(case, model, emitted, emission_failed, detail):
         except UnicodeError as e:
             return fail('U3.latin1_utf8', name=k, value=v, error=repr(e))
         decoded.append((k, d))
+    for k, d in decoded:
+        sur = model.unrepresentable.get(k.lower())
+        if not sur:
+            continue
+        valid = model.valid_offered.get(k.lower(), [])
+        if d in valid or None in valid:
+            continue
+        if k.lower() == 'content-length' and d.isdigit():
+            continue                    # the framework's own default
+        if k.lower() == 'content-type' and d.lower().startswith('text/html'):
+            continue                    # the framework's own default
+        return fail('U4.unrepresentable_value_emitted', name=k, emitted=d, offered_unrepresentable=sur,
+                    valid_offered=valid, fallback_list=bool(emission_failed))
     if emission_failed:
         return None                     # a fallback list was handed over; nothing more is claimed
     forb = FORBIDDEN.get(code, ())
